@@ -42,6 +42,8 @@ STREAMS = [
                               "kinds": [("gai", 4), ("query", 1), ("send", 1)], "qtypes": [1, 1, 28]}, simprops.mon_c01,
                       quick_n=250, thorough_n=8000, quick_ops=30, thorough_ops=120),
     simlib.gai_sync_stream(simprops.mon_c01),
+    # callbacks that take (virtual) time before they react: monitors only
+    simlib.late_reaction_stream(simprops.mon_c01),
     # front ends outside the channel model: callbacks exactly once is checked by monitors only
     simlib.lookups_stream(lambda c, o: simprops.mon_c01(c, o) + simprops.mon_c10(c, o), quick_n=200),
 ]
